@@ -182,14 +182,18 @@ def check_c14(prog, rep, tier, cfg):
     acc = prog.field_accesses(LLP, "pass_index")
     writers = sorted({a[0].npath for a in acc if a[3].startswith("write") or a[3] == "refmut"})
     want = sorted([LLP + "::next_token", LLP + "::skip_token", LLP + "::finish_logical_line"])
-    rep.check(writers == want, R, "who-writes:pass_index", "the pass cursor is advanced in %s (reviewed: next_token, skip_token, finish_logical_line)" % [short(w) for w in writers],
-              instance={"writers": [short(w) for w in writers]})
+    import layout
+    # a private helper extracted from a reviewed writer (every call site in reviewed code) is part of that writer: the structural rules
+    # below are evaluated on the writer's body with such helpers spliced in
+    acc_w = layout.helper_closure(prog, writers, want)
+    rep.check(not [w for w in writers if w not in acc_w and w not in want], R, "who-writes:pass_index", "the pass cursor is advanced in %s (reviewed: next_token, skip_token, finish_logical_line)" % [short(w) for w in writers],
+              instance={"writers": [short(w) for w in writers], "accepted_as_part_of_reviewed_code": {short(k): v for k, v in acc_w.items()}})
     rep.floor(R, "pass_index stores", len([a for a in acc if a[3].startswith("write")]), 3)
     for fn in ("next_token", "finish_logical_line"):
-        b = prog.body(LLP + "::" + fn)
+        b = prog.inlined(LLP + "::" + fn)
         if not rep.check(b is not None, R, "anchor:" + fn, "%s not found" % fn):
             continue
-        stores = [a for a in prog.field_accesses(LLP, "pass_index", within={b.npath}) if a[3].startswith("write")]
+        stores = [a for a in prog.field_accesses(LLP, "pass_index", bodies=[b]) if a[3].startswith("write")]
         pushes = [c for c in b.calls_to("alloc::vec::Vec::push")]
         og = Origins(b)
         def from_token_index(op):
@@ -291,8 +295,11 @@ def check_c14(prog, rep, tier, cfg):
     # ---------------------------------------------------------------- C14.e who mutates line token lists
     R = "C14.e"
     w1 = sorted({a[0].npath for a in prog.field_accesses(P + "LocalLogicalLine", "tokens") if a[3] in ("refmut", "write", "write-inner")})
-    rep.check(w1 == sorted([LLP + "::next_token", LLP + "::finish_logical_line"]), R, "who-mutates:LocalLogicalLine.tokens", "LocalLogicalLine.tokens is mutated in %s" % [short(x) for x in w1],
-              instance={"mutators": [short(x) for x in w1]})
+    import layout as _layout
+    rev1 = sorted([LLP + "::next_token", LLP + "::finish_logical_line"])
+    acc1 = _layout.helper_closure(prog, w1, rev1)
+    rep.check(not [x for x in w1 if x not in acc1 and x not in rev1] and (LLP + "::next_token") in w1, R, "who-mutates:LocalLogicalLine.tokens", "LocalLogicalLine.tokens is mutated in %s" % [short(x) for x in w1],
+              instance={"mutators": [short(x) for x in w1], "accepted_as_part_of_reviewed_code": {short(k): v for k, v in acc1.items()}})
     w2 = sorted({a[0].npath for a in prog.field_accesses(LANG + "LogicalLine", "tokens") if a[3] in ("refmut", "write", "write-inner")})
     rep.check(w2 == sorted([LANG + "LogicalLine::get_tokens_mut", LANG + "LogicalLine::void_and_drain"]), R, "who-mutates:LogicalLine.tokens", "LogicalLine.tokens is mutated in %s" % [short(x) for x in w2],
               instance={"mutators": [short(x) for x in w2]})
